@@ -54,7 +54,8 @@ func init() {
 	reg(&PropDef{
 		ID:     "C15",
 		Level:  "proof",
-		Custom: []func(*PropRun){c15Tables},
+		Custom: []func(*PropRun){c15Tables, c15TPuts},
+		Bounded: []string{"TPuts on arbitrary strings: the database strings with padding plus a fixed padding-grammar corpus (govc/c07.go tputsCorpus) are evaluated; no inductive proof over all strings"},
 		Trusted: []string{"terminfo(5) 'Parameterized Strings' as transcribed in govc/ref_terminfo.go; cup takes (row, column)"},
 	})
 	reg(&PropDef{
